@@ -76,7 +76,8 @@ Definition opt_eqb {A} (e : A -> A -> bool) (a b : option A) : bool :=
   end.
 
 Definition server_eqb (a b : zserver) : bool :=
-  (s_id a =? s_id b) && Z.eqb (s_key a) (s_key b) && list_eqb Z.eqb (s_svc a) (s_svc b).
+  (s_id a =? s_id b) && Z.eqb (s_key a) (s_key b) && list_eqb Z.eqb (s_svc a) (s_svc b) &&
+  Bool.eqb (s_nokey a) (s_nokey b).
 
 Definition roster_eqb (a b : zroster) : bool :=
   (r_id a =? r_id b) && list_eqb server_eqb (r_list a) (r_list b).
@@ -135,11 +136,31 @@ Definition goeq_model (s t : ztree) : bool :=
   match go_tree_equal s t with Ok b => b | _ => false end.
 
 (* which error the (repaired) code reports, in the order of its checks *)
+(* the first failing lookup of the rebuild, in pre-order: 3 = no member carries the id,
+   7 = the member found has no public key *)
+Fixpoint rebuild_fail (l : list zserver) (m : tmarshal) : option nat :=
+  match m with
+  | TM _ _ sid _ ch =>
+      match search_from l sid 0 with
+      | None => Some 3
+      | Some (_, e) =>
+          if s_nokey e then Some 7 else
+          (fix go (cs : list tmarshal) : option nat :=
+             match cs with
+             | [] => None
+             | c :: r => match rebuild_fail l c with Some k => Some k | None => go r end
+             end) ch
+      end
+  end.
+
 Definition make_err_class (m : tmarshal) (oro : option zroster) : nat :=
   match oro with
   | None => 4
   | Some ro => if negb (r_id ro =? tm_rid m) then 1 else
-               match tm_children m with [] => 2 | _ => 3 end
+               match tm_children m with
+               | [] => 2
+               | c :: _ => match rebuild_fail (r_list ro) c with Some k => k | None => 3 end
+               end
   end.
 
 Definition bytes_err_class (d : option tmarshal) (oro : option zroster) : nat :=
@@ -277,6 +298,7 @@ Fixpoint node_wf (l : list zserver) (n : znode) : bool :=
   match n with
   | Node _ srv i g ch =>
       match nth_error l i with Some e => server_eqb e srv | None => false end &&
+      negb (s_nokey srv) &&
       opt_eqb Z.eqb g (Some (key_sum n)) &&
       forallb (node_wf l) ch
   end.
@@ -289,11 +311,16 @@ Definition sender_wf (t : ztree) : bool :=
   | None => false
   end.
 
-(* a description the receiver must refuse: roster id differs, no root element,
-   or a node on a server that is not a member *)
+(* a description the receiver must refuse: roster id differs, no root element, or a node
+   for whose server id the roster search finds no member, or a member without public key
+   (no aggregate can be computed over it) *)
 Fixpoint all_members (l : list zserver) (m : tmarshal) : bool :=
   match m with
-  | TM _ _ sid _ ch => existsb (fun e => s_id e =? sid) l && forallb (all_members l) ch
+  | TM _ _ sid _ ch =>
+      match search_from l sid 0 with
+      | Some (_, e) => negb (s_nokey e)
+      | None => false
+      end && forallb (all_members l) ch
   end.
 
 Definition malformed (m : tmarshal) (ro : zroster) : bool :=
